@@ -312,3 +312,7 @@ def run(ctx):
     r11_4(ctx)
     r11_5(ctx)
     r11_6(ctx)
+    # the no-inversion clause needs every free facility of the workplace to be tried for a task before a lower-priority task is
+    # looked at: the greedy-shape rule of C06
+    from .C06 import r6_3
+    r6_3(ctx)
